@@ -305,6 +305,10 @@ func EncodeRemainLength(r io.ByteReader) (int, error) {
 			break
 		}
 		multiplier += 7
+		// a variable byte integer has at most four bytes [MQTT-1.5.5-1]
+		if multiplier > 21 {
+			return 0, codes.ErrMalformed
+		}
 	}
 	return int(vbi), nil
 }
